@@ -62,7 +62,8 @@ class Chaos(object):
                     return float('inf')
                 if kind == 'eval_oscillate':
                     # a value that never settles: the iteration cannot meet any tolerance
-                    return x + (1.0 if n % 2 else -1.0) * (1.0 + abs(x))
+                    # (amplitude varies with the call index so that no two consecutive calls can agree)
+                    return x + (1.0 if n % 2 else -1.0) * (1.0 + abs(x)) * (1.0 + 0.37 * (n % 5))
                 if kind == 'eval_overflow_abort':
                     raise OverflowError('math range error')
                 if kind == 'eval_arith_abort':
